@@ -289,6 +289,40 @@ impl Ctx {
         );
     }
 
+    /// Thorough tier of C20: absorb the Miri run the `check` script made before this binary.
+    pub fn miri_phase(&mut self) {
+        let Ok(log) = std::env::var("VERIF_MIRI_LOG") else { return };
+        let t0 = Instant::now();
+        let text = std::fs::read_to_string(&log).unwrap_or_default();
+        let mut acc = Acc::default();
+        let mut status = "no result (timeout or build failure): phase skipped".to_string();
+        if let Some(l) = text.lines().find(|l| l.starts_with("MIRI-OK cases=")) {
+            acc.evaluations = l["MIRI-OK cases=".len()..].trim().parse().unwrap_or(0);
+            status = "no undefined behaviour, no semantic violation".into();
+        } else if let Some(pos) = text.find("VIOLATION-UNDER-MIRI") {
+            let m = text[pos..].lines().next().unwrap_or("").to_string();
+            let keep = self.verif_dir.join("replays").join("found").join(format!("{}-miri-{:016x}.log", self.prop.name(), fnv(text.as_bytes())));
+            let _ = std::fs::create_dir_all(keep.parent().unwrap());
+            let _ = std::fs::write(&keep, &text);
+            self.violations.push((m, keep));
+            status = "semantic violation under Miri".into();
+        } else if text.contains("Undefined Behavior") || text.contains("memory leaked") {
+            let in_lib = text.contains("/repo/") && !text.lines().filter(|l| l.contains("-->")).take(1).any(|l| l.contains("/harness/src/"));
+            let keep = self.verif_dir.join("replays").join("found").join(format!("{}-miri-{:016x}.log", self.prop.name(), fnv(text.as_bytes())));
+            let _ = std::fs::create_dir_all(keep.parent().unwrap());
+            let _ = std::fs::write(&keep, &text);
+            let first = text.lines().find(|l| l.contains("Undefined Behavior") || l.contains("memory leaked")).unwrap_or("").trim().to_string();
+            if in_lib {
+                self.violations.push((format!("Miri: {first}"), keep));
+                status = "undefined behaviour reported in library code".into();
+            } else {
+                self.inconclusive.push(format!("Miri reported a problem whose first frame is harness code: {first} (log {})", keep.display()));
+                status = "problem reported in harness code".into();
+            }
+        }
+        self.absorb("miri", acc, json!({"kind": "generated histories under Miri (Tree Borrows)", "status": status, "log": log}), t0);
+    }
+
     /// Write the evidence file and print the verdict lines. Returns the process exit code.
     pub fn finish(self) -> i32 {
         let tier = match self.tier {
